@@ -75,6 +75,15 @@ func genMapsOnly(t *rapid.T, d int) map[string]interface{} {
 			m[k] = []interface{}{"l1", map[string]interface{}{"a": "in-list"}}
 		case r < 7:
 			m[k] = []interface{}{map[string]interface{}{"a": "x", "b": "y"}, map[string]interface{}{"a": "z"}}
+			if rapid.IntRange(0, 3).Draw(t, "list32") == 2 {
+				// a list of exactly 32 scalars (the default result capacity), or 31 / 33
+				n := rapid.SampledFrom([]int{31, 32, 32, 33}).Draw(t, "listn")
+				l := make([]interface{}, n)
+				for i := range l {
+					l[i] = float64(i)
+				}
+				m[k] = l
+			}
 		case r < 8:
 			m[k] = nil
 		case r < 9:
